@@ -66,6 +66,18 @@ type Replay struct {
 	Random    bool          `json:"random,omitempty"` // tape = NewTape(seed, stream, case)
 	OrigTape  int           `json:"orig_tape_len"`
 	Engine    string        `json:"engine"`
+	// FromRandom: the case was random-search case number Case (its tape can be rebuilt from
+	// seed, stream and index). WarmUp: the violation shows only after the earlier cases of the
+	// same shard have run in the same process (state carried between documents): a replay
+	// first runs the random cases From..Case-1 of that shard, then the case itself.
+	FromRandom bool    `json:"from_random,omitempty"`
+	WarmUp     *WarmUp `json:"warm_up,omitempty"`
+}
+
+type WarmUp struct {
+	From    uint64 `json:"from"`
+	Shard   int    `json:"shard"`
+	NShards int    `json:"nshards"`
 }
 
 // ShardResult is what a shard writes for the driver to aggregate.
@@ -98,6 +110,8 @@ type Search struct {
 	vkeys    map[string]bool
 	status   *os.File
 	digests  bool
+	// curRandom: the case being tried came from TryRandom
+	curRandom bool
 }
 
 // noteStatus records which case is about to run, so that the driver can attribute a
@@ -129,6 +143,8 @@ func (s *Search) noteStatus(index uint64, tape *sim.Tape, random bool) {
 // TryRandom runs the random-search case number index.
 func (s *Search) TryRandom(index uint64) *CaseOut {
 	s.noteStatus(index, nil, true)
+	s.curRandom = true
+	defer func() { s.curRandom = false }()
 	return s.try(index, sim.NewTape(s.Env.Seed, s.Stream, index))
 }
 
@@ -219,7 +235,7 @@ func (s *Search) try(index uint64, tape *sim.Tape) *CaseOut {
 				min = orig
 			}
 			s.Res.Violations = append(s.Res.Violations, Replay{Property: s.Env.Prop, Tier: s.Env.Tier, Seed: s.Env.Seed,
-				Stream: s.Stream, Case: index, Tape: min, Violation: *v, OrigTape: len(orig), Engine: "libsim"})
+				Stream: s.Stream, Case: index, Tape: min, Violation: *v, OrigTape: len(orig), Engine: "libsim", FromRandom: s.curRandom})
 		}
 	}
 	return out
@@ -342,6 +358,17 @@ func RunFromEnv(t *testing.T) {
 		tape := sim.ReplayTape(rp.Tape)
 		if rp.Random {
 			tape = sim.NewTape(rp.Seed, rp.Stream, rp.Case)
+		}
+		if w := rp.WarmUp; w != nil && w.NShards > 0 {
+			// rebuild the state of the process: the earlier random cases of the same shard
+			n := 0
+			for i := w.From; i < rp.Case; i++ {
+				if int(i%uint64(w.NShards)) == w.Shard {
+					def.Case(env, sim.NewTape(rp.Seed, rp.Stream, i))
+					n++
+				}
+			}
+			fmt.Printf("REPLAY warm-up: %d earlier cases of shard %d/%d run first\n", n, w.Shard, w.NShards)
 		}
 		if lp := os.Getenv("VERIF_TAPELOG"); lp != "" {
 			if lf, err := os.OpenFile(lp, os.O_CREATE|os.O_WRONLY|os.O_TRUNC, 0o644); err == nil {
